@@ -102,12 +102,13 @@ fn battery(t: Timestamp, via: &str, obs: &mut Obs) -> CheckResult {
     Err(p) => vfail!(obs, "json-panics", "{via}: to_json panicked: {}", p.msg),
   }
   match catch(|| (format!("{t}"), format!("{t:?}"), String::from(t))) {
-    Ok((d, dbg, s)) => {
+    Ok((d, _dbg, s)) => {
+      // Display and String::from are string forms of the value; the Debug text is not specified (it only must not panic).
       vensure!(
         obs,
-        d == text && s == text && dbg == format!("{text:?}"),
+        d == text && s == text,
         "display-differs",
-        "{via}: Display {d:?} / Debug {dbg} / String {s:?} differ from {text:?}"
+        "{via}: Display {d:?} / String {s:?} differ from {text:?}"
       );
     }
     Err(p) => vfail!(obs, "format-panics", "{via}: Display/Debug/String::from panicked: {}", p.msg),
